@@ -23,8 +23,8 @@ from z3 import (And, Or, Not, Implies, If, ForAll, Exists, IntVal, RealVal, Bool
                 Store, Select, K, Int, Const, substitute, is_app, is_quantifier, is_var, is_expr, Function,
                 IntSort, RealSort, BoolSort, is_true, is_false, simplify, Concat, Length, is_int_value,
                 is_const, Z3_OP_UNINTERPRETED)
-from .types import *
-from . import types as Ty
+from .ty import *
+from . import ty as Ty
 
 
 class Unsupported(Exception):
@@ -55,7 +55,7 @@ def ground(e):
     return all(ground(c) for c in e.children())
 
 
-def unfoldings(fmls, rounds=2):
+def unfoldings(fmls, rounds=2, opaque=()):
     """fuel-1: for each ground application F(args) occurring in fmls (also under binders) add F's defining equation."""
     seen = set()
     out = []
@@ -68,7 +68,7 @@ def unfoldings(fmls, rounds=2):
             return
         if is_app(e):
             nm = e.decl().name()
-            if nm in SPEC and SPEC[nm]['unfold'] is not None and e.get_id() not in seen and ground(e):
+            if nm in SPEC and nm not in opaque and SPEC[nm]['unfold'] is not None and e.get_id() not in seen and ground(e):
                 seen.add(e.get_id())
                 out.append(SPEC[nm]['unfold'](*e.children()))
             for c in e.children():
@@ -109,10 +109,10 @@ class St:
 
 
 class Oblig:
-    __slots__ = ('name', 'hyps', 'goal', 'fn', 'line', 'kind', 'extra')
+    __slots__ = ('name', 'hyps', 'goal', 'fn', 'line', 'kind', 'extra', 'opaque')
 
-    def __init__(s, name, hyps, goal, fn, line, kind, extra=None):
-        s.name, s.hyps, s.goal, s.fn, s.line, s.kind, s.extra = name, hyps, goal, fn, line, kind, extra or []
+    def __init__(s, name, hyps, goal, fn, line, kind, extra=None, opaque=()):
+        s.name, s.hyps, s.goal, s.fn, s.line, s.kind, s.extra, s.opaque = name, hyps, goal, fn, line, kind, extra or [], tuple(opaque)
 
 
 # ------------------------------------------------------------------ module loading
@@ -162,6 +162,7 @@ class VCGen:
         s.class_tags = class_tags or {}
         s.obligs = []
         s.pol = 0
+        s.binders = 0
         s.specmode = False
         s.notes = []
 
@@ -170,7 +171,7 @@ class VCGen:
         cnt = s.cur['_names'].get(name, 0)
         s.cur['_names'][name] = cnt + 1
         nm = f"{s.cur['name']}/{name}" + (f"~{cnt}" if cnt else "")
-        s.obligs.append(Oblig(nm, list(st.pc), goal, s.cur['name'], line, kind, extra))
+        s.obligs.append(Oblig(nm, list(st.pc), goal, s.cur['name'], line, kind, extra, s.cur.get('opaque', ())))
 
     def safe(s, st, what, goal, line):
         if s.specmode:
@@ -201,9 +202,32 @@ class VCGen:
     def assume(s, st, txt):
         st.pc.append(s.spec_eval(txt, st, -1))
 
-    def coerce(s, v, t, want):
+    def use_lemma(s, st, txt):
+        """`use` entries are instances of separately proved lemmas, possibly under forall(...) binders; anything else
+        is rejected (an arbitrary assumed formula would be an unchecked axiom)"""
+        e = s.parse(txt)
+        x = e
+        while isinstance(x, ast.Call) and isinstance(x.func, ast.Name) and x.func.id == 'forall':
+            x = x.args[-1]
+        if not (isinstance(x, ast.Call) and isinstance(x.func, ast.Name) and x.func.id in LEMMAS):
+            raise ContractError(f'`use` entry is not a lemma instance: {txt}')
+        s.cur.setdefault('_lemmas_used', set()).add(x.func.id)
+        st.pc.append(s.spec_eval(e, st, -1))
+
+    def hint(s, st, txt, tag, line):
+        """an intermediate assertion: proved as its own obligation, then available as a hypothesis"""
+        s.oblige(st, tag, s.spec_eval(txt, st, 1), line, 'hint')
+        st.pc.append(s.spec_eval(txt, st, -1))
+
+    def coerce(s, v, t, want, st=None):
         if t == want or want is None:
             return v, t
+        if t == LIST(NONE) and v is not None and want.k == 'list' and want.a[0].k == 'opt' and st is not None:
+            r = fresh('nones', want)
+            k = Int(f'k!n{next(Ty._fresh)}')
+            st.pc.append(L_len(r, want) == L_len(v, t))
+            st.pc.append(ForAll([k], Implies(And(0 <= k, k < L_len(r, want)), L_arr(r, want)[k] == opt_none(want.a[0]))))
+            return r, want
         if want == REAL and t == INT:
             return ToReal(v), REAL
         if want == REAL and t == BOOL:
@@ -543,6 +567,8 @@ class VCGen:
             elif {ta, tb} <= {INT, REAL, BOOL}:
                 a2, b2, _ = s.num2(a, ta, b, tb)
                 r = a2 == b2
+            elif s.specmode and {ta.k, tb.k} <= {'ref', 'lref', 'int'}:
+                r = a == b          # references are integers in the encoding; contracts may quantify over them
             elif ta.k == 'opt' and tb == NONE:
                 r = sort(ta).isnone(a)
             elif ta.k in ('list', 'lref') and tb.k in ('list', 'lref'):
@@ -568,21 +594,36 @@ class VCGen:
             raise Unsupported(f'eqlist {ta} {tb}')
         k = fresh_int('q')
         body = Implies(And(0 <= k, k < L_len(a, ta)), L_arr(a, ta)[k] == L_arr(b, tb)[k])
-        if s.pol > 0:
+        if s.pol > 0 and s.binders == 0:
             return And(L_len(a, ta) == L_len(b, tb), body)      # k is a fresh constant: skolemised
         return And(L_len(a, ta) == L_len(b, tb), ForAll([k], body))
 
     def ev_Compare(s, e, st):
+        sv = s.pol
+        s.pol = 0               # operands of a comparison (e.g. booleans under ==) have no fixed polarity
+        try:
+            return s._compare(e, st, sv)
+        finally:
+            s.pol = sv
+
+    def _compare(s, e, st, outer_pol):
         a, ta = s.ev(e.left, st)
         res = []
         for op, c in zip(e.ops, e.comparators):
             b, tb = s.ev(c, st)
+            s.pol = outer_pol if len(e.ops) == 1 and isinstance(op, ast.Eq) and ta.k in ('list', 'lref') else 0
             res.append(s.cmp(op, a, ta, b, tb, st, e.lineno))
+            s.pol = 0
             a, ta = b, tb
         return (And(*res) if len(res) > 1 else res[0]), BOOL
 
     def ev_IfExp(s, e, st):
-        c, tc = s.ev(e.test, st)
+        sv = s.pol
+        s.pol = 0               # a condition occurs in both polarities
+        try:
+            c, tc = s.ev(e.test, st)
+        finally:
+            s.pol = sv
         c = s.truthy(c, tc, st)
         if s.specmode:
             a, ta = s.ev(e.body, st)
@@ -661,20 +702,26 @@ class VCGen:
             hi, _ = s.ev(e.args[2], st)
             vt = INT
             body_e = e.args[3]
-        else:
-            vt = s.cur['_types'][e.args[1].value] if isinstance(e.args[1], ast.Constant) else INT
+        else:               # forall(r, body): r ranges over all integers (object / list references)
+            vt = INT
             lo = hi = None
             body_e = e.args[-1]
-        want_skolem = (kind == 'forall' and s.pol > 0) or (kind == 'exists' and s.pol < 0)
+        # skolemise only at the top level: under a retained binder the witness would depend on the bound variable
+        want_skolem = ((kind == 'forall' and s.pol > 0) or (kind == 'exists' and s.pol < 0)) and s.binders == 0
         k = fresh(var + ('!sk' if want_skolem else ''), vt) if want_skolem else Const(f'{var}!b{next(Ty._fresh)}', sort(vt))
         st2 = st.clone()
         st2.env[var] = (k, vt)
         rng = And(lo <= k, k < hi) if lo is not None else BoolVal(True)
-        if kind == 'forall':
+        if not want_skolem:
+            s.binders += 1
+        try:
             body, _ = s.ev(body_e, st2)
+        finally:
+            if not want_skolem:
+                s.binders -= 1
+        if kind == 'forall':
             f = Implies(rng, body) if lo is not None else body
             return (f if want_skolem else ForAll([k], f)), BOOL
-        body, _ = s.ev(body_e, st2)
         f = And(rng, body) if lo is not None else body
         return (f if want_skolem else Exists([k], f)), BOOL
 
@@ -728,7 +775,12 @@ class VCGen:
                     x, tx = s.ev(e.args[2], st)
                     return Store(a, i, s.coerce(x, tx, t.a[1])[0]), t
                 if nm == 'ite':
-                    c, _ = s.ev(e.args[0], st)
+                    sv = s.pol
+                    s.pol = 0
+                    try:
+                        c, _ = s.ev(e.args[0], st)
+                    finally:
+                        s.pol = sv
                     a, ta = s.ev(e.args[1], st)
                     b, tb = s.ev(e.args[2], st)
                     if ta != tb:
@@ -823,6 +875,11 @@ class VCGen:
             q = f'{m}.{cls}.{attr}'
             if q in s.contracts:
                 return q
+        # a method only some subclass defines, called on a receiver of the base type under a guard: the unique
+        # contract of that name is used; its `requires` carries the class tag, so the guard is what discharges it
+        cands = [q for q in s.contracts if q.endswith('.' + attr) and q.count('.') == 2]
+        if len(cands) == 1:
+            return cands[0]
         return None
 
     # builtins
@@ -1067,11 +1124,11 @@ class VCGen:
             v, t = s.ev(e.elt, sa)
             v = s.coerce(v, t, rt.a[0])[0]
             for u in spec_.get('use', []):
-                sa.pc.append(s.spec_eval(u, sa, -1))
+                s.use_lemma(sa, u)
             s.oblige(sa, f'comp-step-keep#{ordn}', s.listeq_goal(at(k + 1, sa), L_app(at(k, sa), rt, v), rt), e.lineno, 'comp')
             sb = st2.clone(); sb.pc.append(Not(cond))
             for u in spec_.get('use', []):
-                sb.pc.append(s.spec_eval(u, sb, -1))
+                s.use_lemma(sb, u)
             s.oblige(sb, f'comp-step-drop#{ordn}', s.listeq_goal(at(k + 1, sb), at(k, sb), rt), e.lineno, 'comp')
         return at(If(dom['count'] >= 0, dom['count'], 0), st), rt
 
@@ -1148,7 +1205,7 @@ class VCGen:
         if isinstance(tg, ast.Name):
             dt = s.declared(tg.id)
             if dt is not None:
-                v, t = s.coerce(v, t, dt)
+                v, t = s.coerce(v, t, dt, st)
             elif v is None:
                 raise Unsupported(f'empty list assigned to undeclared local {tg.id}: declare its type in `locals`')
             elif tg.id in st.env and st.env[tg.id][1] != t:
@@ -1516,9 +1573,15 @@ class VCGen:
             for x in sp.get('free_inv', []):      # facts that hold by construction of the engine (e.g. heap frame of the loop)
                 s.assume(t, x)
 
-        def inv_assert(t, tag, line):
+        def inv_assert(t, tag, line, use_for=None):
             for k, x in enumerate(invs):
-                s.oblige(t, f'{tag}#L{ordn}.{k}', s.spec_eval(x, t, 1), line, 'inv', extra=sp.get('use_goal', []))
+                extra = []
+                if use_for is not None:
+                    for u in use_for.get(k, []):        # lemma instances visible to this conjunct only
+                        t2 = t.clone()
+                        s.use_lemma(t2, u)
+                        extra += t2.pc[len(t.pc):]
+                s.oblige(t, f'{tag}#L{ordn}.{k}', s.spec_eval(x, t, 1), line, 'inv', extra=extra)
 
         for g in sp.get('ghost_decl', []):
             if g[0] not in st.env:
@@ -1560,12 +1623,18 @@ class VCGen:
             finally:
                 s.pol, s.specmode = sv_pol, sv_mode
         s.run_ghosts(sp, b, 'ghost_pre')
+        for k, h in enumerate(sp.get('hint_pre', [])):
+            s.hint(b, h, f'hint-pre#L{ordn}.{k}', n.lineno)
         for t in s.block(n.body, b):
             s.run_ghosts(sp, t, 'ghost_post')
-            for u in sp.get('use', []):
-                s.assume(t, u)
+            for k, h in enumerate(sp.get('hint', [])):
+                s.hint(t, h, f'hint#L{ordn}.{k}', n.lineno)
+            use = sp.get('use', [])
+            if isinstance(use, list):
+                for u in use:
+                    s.use_lemma(t, u)
             t.env[iv] = (i + 1, INT)
-            inv_assert(t, 'inv-step', n.lineno)
+            inv_assert(t, 'inv-step', n.lineno, use if isinstance(use, dict) else None)
             if var0 is not None:
                 sv_pol, sv_mode = s.pol, s.specmode
                 s.pol, s.specmode = 0, True
@@ -1583,8 +1652,10 @@ class VCGen:
         else:
             c, tc = s.ev(n.test, a)
             a.pc.append(Not(s.truthy(c, tc, a)))
+        for k, h in enumerate(sp.get('hint_exit', [])):
+            s.hint(a, h, f'hint-exit#L{ordn}.{k}', n.lineno)
         for u in sp.get('use_exit', []):
-            s.assume(a, u)
+            s.use_lemma(a, u)
         # variables first bound inside the loop may be unbound after it
         for v in names:
             if v not in st.env and v in a.env and v != iv:
@@ -1861,6 +1932,46 @@ class VCGen:
         info = dict(name=qual, src_hash=sha(mod.segment(fn)), contract_hash=sha(repr(sorted((k, repr(v)) for k, v in s.contracts[qual].items() if not k.startswith('_') and not callable(v)))),
                     lines=(fn.lineno, fn.end_lineno), n=len(s.obligs) - n0)
         return s.obligs[n0:], info
+
+
+def _refinement(s, vq):
+    """behavioural subtyping: every implementation of a virtual method accepts the virtual precondition (under its
+    class tag) and establishes the virtual postcondition; call sites only ever use the virtual contract"""
+    V = s.contracts[vq]
+    mod, cls, meth = vq.split('.')
+    n0 = len(s.obligs)
+    for impl in V['implementations']:
+        iq = f'{mod}.{impl}.{meth}'
+        I = s.contracts[iq]
+        if not set(I.get('modifies', {})) <= set(V.get('modifies', {})):
+            raise ContractError(f'{iq} modifies more than {vq}')
+        c = dict(V)
+        c.update(name=f'{vq}<:{impl}', _names={}, _consts=s.modules[mod].consts, slot0=I.get('slot0', 'lab'), _loopnum={}, _compnum={})
+        c.setdefault('locals', {})
+        s.cur = c
+        st = s.init_state(c)
+        for r in V.get('requires', []):
+            s.assume(st, r)
+        self_name = next(iter(V['params']))
+        st.pc.append(st.heap['__class__'][st.env[self_name][0]] == s.class_tags[impl])
+        st.old = st.clone()
+        for k, r in enumerate(I.get('requires', [])):
+            s.oblige(st, f'refine-pre#{k}', s.spec_eval(r, st, 1), 0, 'refine')
+        rt = V.get('result', NONE)
+        if rt != NONE:
+            st.env['result'] = (fresh('ret', rt), rt)
+            st.pc += s.wf_facts(st.env['result'][0], rt)
+        for r in I.get('ensures', []):
+            s.assume(st, r)
+        for k, r in enumerate(V.get('ensures', [])):
+            s.oblige(st, f'refine-post#{k}', s.spec_eval(r, st, 1), 0, 'refine')
+    info = dict(name=vq, src_hash='-', contract_hash=sha(repr(sorted((k, repr(v)) for k, v in V.items() if not callable(v)))), lines=(0, 0), n=len(s.obligs) - n0)
+    for o in s.obligs[n0:]:
+        o.fn = vq
+    return s.obligs[n0:], info
+
+
+VCGen.refinement = _refinement
 
 
 def _as_load(t):
